@@ -620,3 +620,77 @@ class lb_keypress_down:
                                                                             both(now[1] == ch.pos(DOWN, K2), eq(val(now[0]), tw2), stored_as(s, final2, rows2), _handled_state(s, rows2, final2, maxrow)))
 
     on_raise = staticmethod(lambda old, s, a, exc: _updown_on_raise(old, s, a, exc))
+
+
+# ------------------------------------------------------------------------------------------------ _keypress_max_left / _keypress_max_right
+
+from contracts.C07_listbox import VALIGN  # noqa: E402
+from contracts.C08_listbox import PENDING, lb_set_focus  # noqa: E402
+
+LBK = Obj(
+    _lbmod.ListBox,
+    dict(
+        _body=WALKER,
+        set_focus_pending=Opt(PENDING),
+        set_focus_valign_pending=Opt(Tup(VALIGN, Opt(Int))),
+        offset_rows=Int,
+        inset_fraction=Tup(Int, Int),
+        pref_col=Opt(Int),
+    ),
+)
+
+# (set_focus = the `focus_position` setter: inlined, its C08 contract leaves the `coming_from` component of the pending change open)
+_MAX_INLINE = (LBX + "ListBox.body", LBX + "ListBox.set_focus_valign", "urwid/widget/constants.py:normalize_valign", LBX + "ListBox.set_focus")
+
+
+def _has_positions(s):
+    return PROTOCOLS["ListWalker"].hasattr(None, cur(), s._body, "positions")
+
+
+def _first_position(s, reverse):
+    r = PROTOCOLS["ListWalker"].call_quiet(cur(), s._body, "positions", dict(reverse=reverse))
+    return Q.seq_get(r, 0)
+
+
+def _max_contract(name, reverse, valign):
+    @contract(LBX + f"ListBox.{name}", property=("C07", "C08"), replayable=False, inline=_MAX_INLINE, contract_overrides={LBX + "ListBox.set_focus": None})
+    class k:
+        __doc__ = f"""'home' / 'end' ({'end' if reverse else 'home'}): the walker's focus moves at once to the first position it lists
+        ({'in reverse order' if reverse else 'in list order'}), the scrolling is left pending -- from the old focus, aligned '{valign}' -- for the next
+        render / keypress at a known size; a walker without `positions` leaves the key unhandled (True) and nothing changes."""
+
+        self_shape = LBK
+        params = dict(size=Tup(Int, Int))
+        result = Opt(Bool)
+        raises = (IndexError, KeyError)  # the walker refuses a position it lists itself
+        modifies = ("set_focus_pending", "set_focus_valign_pending")
+
+        def requires(s, a):
+            return nonempty(s)
+
+        def ensures(old, s, a, result):
+            was = walker_focus(old, "entry")
+            now = walker_focus(s, "exit")
+            if is_none(result):
+                p = _first_position(old, reverse)
+                yield "walker-lists-its-positions", _has_positions(old)
+                yield "focus-is-the-first-position-listed", both(neg(mk_bool(now[0].isnone)), now[1] == p, eq(val(now[0]), widget_at(old._body, 0, p)))
+                pend = s.set_focus_pending
+                yield "scrolling-left-pending-from-the-old-focus", both(V.opt_isnone(val(pend)[0]), V.opt_eq(val(pend)[1], was[0]), val(pend)[2] == was[1]) if not is_none(pend) else False
+                vp = s.set_focus_valign_pending
+                yield "alignment-left-pending", both(neg(is_none(vp)), val(vp)[0] == valign, is_none(val(vp)[1])) if not is_none(vp) else False
+                yield "invalidated", count_ev(s.trace, "_invalidate") == 1
+            else:
+                yield "unhandled-without-positions-nothing-changed", both(V.opt_eq(result, True), neg(_has_positions(old)), now[1] == was[1], count_ev(s.trace, "_invalidate") == 0,
+                                                                           V.struct_eq(s.set_focus_pending, old.set_focus_pending) if not isinstance(old.set_focus_pending, V.SOpt) else True)
+            yield "scroll-state-untouched", same_scroll_state(s, old)
+
+        def on_raise(old, s, a, exc):
+            yield "walker-refused-nothing-moved", both(walker_focus(s, "now")[1] == walker_focus(old, "entry")[1], same_scroll_state(s, old))
+
+    k.__name__ = f"lb_{name}"
+    return k
+
+
+lb_keypress_max_left = _max_contract("_keypress_max_left", False, "top")
+lb_keypress_max_right = _max_contract("_keypress_max_right", True, "bottom")
